@@ -33,7 +33,7 @@ def main():
                 results.append((prop, name, "PATTERN-NOT-FOUND", 0)); print(prop, name, "PATTERN-NOT-FOUND"); continue
             open(path, "w").write(src.replace(old, new, 1))
             t0 = time.time()
-            env = dict(os.environ, VERIF_REPO=dst, VERIF_SENS="1")
+            env = dict(os.environ, VERIF_REPO=dst, VERIF_SENS="1", VERIF_SHRINK_S=os.environ.get("VERIF_SHRINK_S", "8"))
             p = subprocess.run([os.path.join(ROOT, "check"), prop, "--tier", "quick"], env=env, capture_output=True, text=True)
             open(path, "w").write(src)
             viol = [l for l in p.stdout.splitlines() if l.startswith("  violation")]
